@@ -271,6 +271,7 @@ var c08Rep *Report
 func runC08(rep *Report, tier string, seed int64) {
 	c08Rep = rep
 	c08Envelopes(rep)
+	c08InFlightAtFailure(rep)
 	hangs := 10
 	if tier == "thorough" {
 		hangs = 200
